@@ -31,11 +31,17 @@ func pairsOf(m *model.V) (ps []c05Pair, ok bool) {
 		return nil, false
 	}
 	for _, t := range m.Mem {
-		attr, is := model.SeqAttr(t)
-		if !is {
+		if t.K != model.KTuple || len(t.Names) != 2 {
 			return nil, false
 		}
-		ps = append(ps, c05Pair{k: t.Vals[0], v: t.Vals[1], attr: attr, t: t})
+		switch {
+		case t.Names[0] == "@":
+			ps = append(ps, c05Pair{k: t.Vals[0], v: t.Vals[1], attr: t.Names[1], t: t})
+		case t.Names[1] == "@": // the other attribute's name sorts before "@" (e.g. $v)
+			ps = append(ps, c05Pair{k: t.Vals[1], v: t.Vals[0], attr: t.Names[0], t: t})
+		default:
+			return nil, false
+		}
 	}
 	return ps, true
 }
